@@ -29,6 +29,9 @@ def fill_orders(seed):
         orders["perm%d" % i] = p
     # a permutation that makes consecutive allocations non-adjacent and descending across track 17
     orders["straddle"] = [35, 30, 33, 34, 2, 67, 1, 66] + [g for g in range(68) if g not in (35, 30, 33, 34, 2, 67, 1, 66)]
+    # chains whose link bytes take the extreme values: a link to granule 0 ($00) and links to granules 64-67 ($40-$43)
+    orders["zerolink"] = [5, 0, 1, 3, 2] + [g for g in range(68) if g not in (5, 0, 1, 3, 2)]
+    orders["high"] = [62, 63, 64, 65, 66, 67, 0] + [g for g in range(1, 62)]
     return orders
 
 
@@ -50,6 +53,11 @@ def scenarios(tier, seed):
         out.append(("order:%s:2297" % oname, [S("STRAD", 2297, "ml")], oname, 16, 0))
         out.append(("order:%s:4700" % oname, [S("THREE", 4700, "ml")], oname, 16, 0))
         out.append(("order:%s:two" % oname, [S("ONE", 2300, "ml"), S("TWO", 30, "basic", ext="BAS")], oname, 16, 1))
+    for oname in ["zerolink", "high"]:
+        out.append(("order:%s:4700" % oname, [S("THREE", 4700, "ml")], oname, 16, 0))
+        out.append(("order:%s:ascii5000" % oname, [S("TXT", 5000, "ascii", ext="TXT")], oname, 16, 0))
+        out.append(("order:%s:basic5000+ml" % oname, [S("BAS", 5000, "basic", ext="BAS"), S("ML", 2400, "ml")], oname, 16, 1))
+        out.append(("order:%s:ascii2400+ascii" % oname, [S("TXT", 2400, "ascii", ext="TXT"), S("TXT2", 4700, "ascii", ext="TXT")], oname, 16, 0))
     out.append(("two:5+2294", [S("ONE", 5, "ml"), S("TWO", 2294, "ml")], "default", 16, 1))
     out.append(("mlff:40", [S("MLFF", 40, "mlff")], "default", 16, 0))
     out.append(("mlff:2300", [S("MLFF", 2300, "mlff")], "perm0", 16, 0))
@@ -75,4 +83,6 @@ def write(ctx, specs, order, allsym, full_index, orders):
         d.add_files(fl)
     except VirtualFileValidationError as e:
         return None, descs, str(e)
+    except Exception as e:  # noqa: BLE001 - an internal error while writing: nothing usable was written
+        return None, descs, "%s: %s" % (type(e).__name__, e)
     return d.get_buffer(), descs, None
